@@ -8,6 +8,7 @@ import Model.CachedGuard
 import Model.Migration
 import Model.InquiryEq
 import Model.Serialize
+import Model.Prefilter
 /-!
 # `vaktdrv`: one case per line in, one result per line out
 -/
@@ -260,6 +261,14 @@ def handle (toks : List String) : Option String :=
          pure ("ok uid=" ++ showVal r.uid ++ " effect=" ++ showVal r.effect ++ " type=" ++
            toString Vakt.Generated.typeStringBased ++ " ctx=" ++ ",".intercalate ks ++ " desc=" ++ showVal r.description))
     | _ => none
+  | "CAND" :: bk :: ts => do
+    let b ← (match bk with
+      | "all" => some Vakt.Prefilter.Backend.all | "type" => some Vakt.Prefilter.Backend.typeOnly
+      | "query" => some Vakt.Prefilter.Backend.query | _ => none)
+    let (k, ts) ← pChecker ts
+    let (p, ts) ← pPolicy ts
+    let q ← full (pInquiry ts)
+    pure ("ok " ++ showB (Vakt.Prefilter.candidate b k p q))
   | "POBJ" :: ts => do
     let (ctor, ts) ← pCounted pAssign ts
     let steps ← full (pCounted pAssign ts)
